@@ -43,10 +43,13 @@ def _single(draw):
     pd = draw(st.sampled_from(['float32', 'float32', 'float64']))
     # mixed precision as documented (examples/vision): the forward pass runs inside torch.autocast, usually with a loss scale
     autocast = draw(st.sampled_from([None, None, None, None, 'bfloat16'])) if pd == 'float32' else None
+    fdt = draw(st.sampled_from([None, None, 'float32', 'float64', 'bfloat16', 'float16']))
+    if autocast and fdt == 'float16':
+        fdt = 'float32'          # torch's CPU autocast (bfloat16) cannot mix float16 tensors into its ops: not a K-FAC matter
     return {'kind': 'single', 'autocast': autocast, 'bystander': bystander, 'spec': draw(gens.model_spec(max_layers=3, max_dim=7, max_out=6)),
             'method': 'eigen', 'prediv': False, 'in_hook': draw(st.booleans()), 'accum': accum, 'N': draw(st.integers(1, 5)),
             'style': draw(gens.style_strategy()), 'param_dtype': pd,
-            'factor_dtype': draw(st.sampled_from([None, None, 'float32', 'float64', 'bfloat16', 'float16'])),
+            'factor_dtype': fdt,
             'loss_scale': draw(st.sampled_from([None, None, 128.0, 1024.0, 0.5, {'table': [1024.0, 512.0, 2048.0]}, {'table': [8.0, 8.0, 0.25, 64.0]}])),
             'hp': {'factor_update_steps': draw(gens.table_or_const([1, 1, 2, 3])), 'inv_update_steps': draw(st.sampled_from([1, 2, 3])),
                    'damping': 0.1, 'factor_decay': draw(_decay()), 'kl_clip': 1e-2, 'lr': 0.1},
